@@ -1,0 +1,43 @@
+/*
+ * Atree - Scalable Arrays and Ordered Maps
+ *
+ * Copyright Flow Foundation
+ *
+ * Licensed under the Apache License, Version 2.0 (the "License");
+ * you may not use this file except in compliance with the License.
+ * You may obtain a copy of the License at
+ *
+ *   http://www.apache.org/licenses/LICENSE-2.0
+ *
+ * Unless required by applicable law or agreed to in writing, software
+ * distributed under the License is distributed on an "AS IS" BASIS,
+ * WITHOUT WARRANTIES OR CONDITIONS OF ANY KIND, either express or implied.
+ * See the License for the specific language governing permissions and
+ * limitations under the License.
+ */
+
+//go:build verif
+
+package atree
+
+//@ # ---------------------------------------------------------------- errors.go
+//@ # Error categories: an error is categorised when errors.As finds a *UserError, *FatalError or *ExternalError in its chain.
+
+//@ pred isUser(e error) = errAs(e, *UserError)
+//@ pred isFatal(e error) = errAs(e, *FatalError)
+//@ pred isExternal(e error) = errAs(e, *ExternalError)
+//@ pred categorised(e error) = isUser(e) || isFatal(e) || isExternal(e)
+
+//@ func wrapErrorfAsExternalErrorIfNeeded(err, msg) (r)  serves C18
+//@   ensures err == nil ==> r == nil
+//@   ensures err != nil ==> r != nil && categorised(r)
+//@   ensures err != nil && categorised(err) ==> r == err
+//@   ensures err != nil && !categorised(err) ==> isExternal(r) && fresh(r)
+//@   modifies alloc
+
+//@ func wrapErrorAsExternalErrorIfNeeded(err) (r)  serves C18
+//@   ensures err == nil ==> r == nil
+//@   ensures err != nil ==> r != nil && categorised(r)
+//@   ensures err != nil && categorised(err) ==> r == err
+//@   ensures err != nil && !categorised(err) ==> isExternal(r) && fresh(r)
+//@   modifies alloc
